@@ -109,23 +109,29 @@ def run_case(case):
     r = common.resolve(case)
     counters = {}
     FLAGS["hits"] = FLAGS["pruned"] = 0
+    base_err = None
     try:
         base, leaves = parse_once(r)
     except Exception as e:
-        return {"status": "skip", "counters": {"parse_raised": 1}, "detail": repr(e)[:200]}
+        base, leaves, base_err = None, 0, f"{type(e).__name__}: {str(e)[:120]}"
     hits, pruned = FLAGS["hits"], FLAGS["pruned"]
     counters["cache_hits_normal"] = hits
     counters["options_pruned_normal"] = pruned
     fails = []
+    outcomes = {"normal": base if base_err is None else "RAISED:" + base_err.split(":")[0]}
     for name, kw in (("nocache", {"nocache": True}), ("noprune", {"noprune": True}), ("nocache_noprune", {"nocache": True, "noprune": True}), ("repeat", {})):
         try:
-            sig, _ = parse_once(r, **kw)
+            sig, lv = parse_once(r, **kw)
+            leaves = max(leaves, lv)
         except Exception as e:
-            fails.append({"sig": f"raised_with_{name}", "detail": {"err": repr(e)[:200]}})
-            continue
+            sig = "RAISED:" + type(e).__name__
         counters[f"{name}_parses"] = 1
-        if sig != base:
-            fails.append({"sig": f"tree_differs:{name}", "detail": {"source": r["source"][:300], "dialect": r["dialect"]}})
+        outcomes[name] = sig
+        if sig != outcomes["normal"]:
+            kind = "raises_only_in_some_modes" if "RAISED" in str(sig) + str(outcomes["normal"]) else "tree_differs"
+            fails.append({"sig": f"{kind}:{name}", "detail": {"source": r["source"][:300], "dialect": r["dialect"], "normal": str(outcomes["normal"])[:60], name: str(sig)[:60], "base_error": base_err}})
+    if base_err is not None and not fails:
+        return {"status": "skip", "counters": {"parse_raised_in_every_mode": 1}, "detail": base_err}
     if case.get("fresh"):
         try:
             out = subprocess.run(
@@ -138,7 +144,7 @@ def run_case(case):
             counters["fresh_failed_to_run"] = 1
         else:
             counters["fresh_process_parses"] = 1
-            if fresh_sig != base:
+            if base is not None and fresh_sig != base:
                 fails.append({"sig": "tree_differs:fresh_process_vs_history", "detail": {"source": r["source"][:300], "dialect": r["dialect"]}})
     return {
         "status": "fail" if fails else "pass",
